@@ -1,34 +1,491 @@
 package main
 
 import (
+	"bufio"
+	"encoding/json"
+	"flag"
 	"fmt"
 	"os"
+	"os/exec"
+	"path/filepath"
+	"sort"
+	"strconv"
+	"strings"
+	"sync"
 	"time"
-
-	"golang.org/x/tools/go/packages"
-	"golang.org/x/tools/go/ssa"
-	"golang.org/x/tools/go/ssa/ssautil"
 )
 
-func main() {
-	t0 := time.Now()
-	cfg := &packages.Config{Mode: packages.NeedName | packages.NeedFiles | packages.NeedCompiledGoFiles | packages.NeedImports | packages.NeedTypes | packages.NeedTypesSizes | packages.NeedSyntax | packages.NeedTypesInfo | packages.NeedDeps, Dir: "/repo", BuildFlags: []string{"-tags=verif"}}
-	pkgs, err := packages.Load(cfg, os.Args[1:]...)
+type knownFinding struct {
+	Prop, Oblig, Note string
+	Fixed             bool
+}
+
+func loadKnown(path string) []knownFinding {
+	var out []knownFinding
+	f, err := os.Open(path)
 	if err != nil {
-		panic(err)
+		return nil
 	}
-	fmt.Println("load", time.Since(t0), len(pkgs))
-	prog, spkgs := ssautil.Packages(pkgs, ssa.InstantiateGenerics)
-	for _, p := range spkgs {
-		if p != nil {
-			p.Build()
+	defer f.Close()
+	sc := bufio.NewScanner(f)
+	for sc.Scan() {
+		l := strings.TrimSpace(sc.Text())
+		if l == "" || strings.HasPrefix(l, "#") {
+			continue
+		}
+		kf := knownFinding{}
+		if strings.HasPrefix(l, "fixed:") {
+			kf.Fixed = true
+		} else if !strings.HasPrefix(l, "finding:") {
+			continue
+		}
+		for _, w := range strings.Fields(l) {
+			if strings.HasPrefix(w, "property=") {
+				kf.Prop = strings.TrimPrefix(w, "property=")
+			}
+			if strings.HasPrefix(w, "obligation=") {
+				kf.Oblig = strings.TrimPrefix(w, "obligation=")
+			}
+		}
+		if i := strings.Index(l, "note="); i >= 0 {
+			kf.Note = l[i+5:]
+		}
+		out = append(out, kf)
+	}
+	return out
+}
+
+type obAgg struct {
+	Name      string
+	Kind      string
+	Prop      string
+	Src       string
+	Where     string
+	Instances int
+	Failed    []*Oblig
+	Solvers   map[string]int
+	Ms        int64
+	Expect    bool
+}
+
+func main() {
+	if len(os.Args) < 2 {
+		fmt.Fprintln(os.Stderr, "usage: govc check <Cxx> [-tier quick|thorough] | govc dump <func>")
+		os.Exit(2)
+	}
+	cmd := os.Args[1]
+	fs := flag.NewFlagSet(cmd, flag.ExitOnError)
+	repo := fs.String("repo", "/repo", "repository")
+	verif := fs.String("verif", "/verif", "verif dir")
+	tier := fs.String("tier", envOr("VERIF_TIER", "quick"), "quick|thorough")
+	only := fs.String("only", "", "only functions whose key contains this")
+	verbose := fs.Bool("v", false, "verbose")
+	noEvidence := fs.Bool("no-evidence", false, "do not write evidence")
+	var args []string
+	rest := os.Args[2:]
+	for len(rest) > 0 && !strings.HasPrefix(rest[0], "-") {
+		args = append(args, rest[0])
+		rest = rest[1:]
+	}
+	fs.Parse(rest)
+	args = append(args, fs.Args()...)
+	os.Setenv("PATH", "/opt/veriftools/go1.26.8/bin:"+os.Getenv("PATH"))
+
+	switch cmd {
+	case "dump":
+		eng, err := loadEngine(*repo, *verif, patternsFor(*repo, *verif))
+		if err != nil {
+			fmt.Fprintln(os.Stderr, err)
+			os.Exit(2)
+		}
+		for k, fn := range eng.funcsByKey {
+			for _, a := range args {
+				if strings.Contains(k, a) {
+					fn.WriteTo(os.Stdout)
+				}
+			}
+		}
+	case "check":
+		if len(args) != 1 {
+			fmt.Fprintln(os.Stderr, "check needs one property id")
+			os.Exit(2)
+		}
+		os.Exit(runCheck(*repo, *verif, args[0], *tier, *only, *verbose, !*noEvidence))
+	default:
+		fmt.Fprintln(os.Stderr, "unknown command", cmd)
+		os.Exit(2)
+	}
+}
+
+func envOr(k, d string) string {
+	if v := os.Getenv(k); v != "" {
+		return v
+	}
+	return d
+}
+
+// patternsFor: packages with contract files (+ protobuf packages for getter bodies).
+func patternsFor(repo, verif string) []string {
+	set := map[string]bool{"./protobuf/...": true, "./common": true}
+	add := func(root string, rel func(string) string) {
+		filepath.Walk(root, func(p string, info os.FileInfo, err error) error {
+			if err != nil {
+				return nil
+			}
+			if info.IsDir() && (info.Name() == ".git" || info.Name() == "node_modules") {
+				return filepath.SkipDir
+			}
+			if !info.IsDir() && info.Name() == "zz_verif_contracts.go" {
+				r := rel(filepath.Dir(p))
+				if r == "" {
+					r = "."
+				}
+				set["./"+r] = true
+			}
+			return nil
+		})
+	}
+	add(repo, func(d string) string { r, _ := filepath.Rel(repo, d); return r })
+	add(filepath.Join(verif, "contracts"), func(d string) string { r, _ := filepath.Rel(filepath.Join(verif, "contracts"), d); return r })
+	var out []string
+	for k := range set {
+		if k == "./." {
+			continue
+		}
+		if _, err := os.Stat(filepath.Join(repo, strings.TrimSuffix(strings.TrimPrefix(k, "./"), "/..."))); err != nil {
+			continue
+		}
+		out = append(out, k)
+	}
+	sort.Strings(out)
+	return out
+}
+
+func runCheck(repo, verif, prop, tier, only string, verbose, writeEvidence bool) int {
+	t0 := time.Now()
+	seed, _ := strconv.Atoi(os.Getenv("VERIF_SEED"))
+	eng, err := loadEngine(repo, verif, patternsFor(repo, verif))
+	if err != nil {
+		// a tree that does not load/type-check cannot be verified
+		fmt.Printf("UNDECIDED property=%s reason=load-failed: %v\n", prop, err)
+		return 3
+	}
+	loadS := time.Since(t0).Seconds()
+	eng.outDir = filepath.Join(verif, "out", prop)
+	os.RemoveAll(eng.outDir)
+	os.MkdirAll(eng.outDir, 0o755)
+	if tier == "thorough" {
+		eng.timeoutS = 60
+		eng.race = true
+	}
+	fcs := eng.selectContracts(prop)
+	var results []*FuncResult
+	var mu sync.Mutex
+	var wg sync.WaitGroup
+	sem := make(chan struct{}, 8)
+	for _, fc := range fcs {
+		if only != "" && !strings.Contains(fc.Key, only) {
+			continue
+		}
+		wg.Add(1)
+		sem <- struct{}{}
+		go func(fc *FuncContract) {
+			defer wg.Done()
+			defer func() { <-sem }()
+			defer func() {
+				if r := recover(); r != nil {
+					mu.Lock()
+					results = append(results, &FuncResult{Key: fc.Key, Short: shortFuncName(fc.Key), Errors: []string{fmt.Sprintf("engine panic: %v", r)}, Notes: map[string]int{}})
+					mu.Unlock()
+				}
+			}()
+			r := eng.verifyFunction(fc)
+			mu.Lock()
+			results = append(results, r)
+			mu.Unlock()
+		}(fc)
+	}
+	wg.Wait()
+	sort.Slice(results, func(i, j int) bool { return results[i].Key < results[j].Key })
+	var all []*Oblig
+	for _, r := range results {
+		all = append(all, r.Obligs...)
+	}
+	if only == "" {
+		all = append(all, eng.lemmaObligs(prop)...)
+	}
+	genS := time.Since(t0).Seconds() - loadS
+	eng.dischargeAll(all)
+
+	// aggregate by obligation name
+	aggs := map[string]*obAgg{}
+	var order []string
+	var solverMs int64
+	for _, o := range all {
+		n := o.Name()
+		a := aggs[n]
+		if a == nil {
+			a = &obAgg{Name: n, Kind: o.Kind, Prop: o.Prop, Src: o.Src, Where: o.Where, Solvers: map[string]int{}, Expect: o.ExpectFail}
+			aggs[n] = a
+			order = append(order, n)
+		}
+		a.Instances++
+		a.Solvers[o.Res.Solver]++
+		a.Ms += o.Res.Ms
+		solverMs += o.Res.Ms
+		if !o.ok() {
+			a.Failed = append(a.Failed, o)
 		}
 	}
-	_ = prog
-	fmt.Println("ssa", time.Since(t0))
-	for _, p := range spkgs {
-		if p != nil && p.Pkg.Name() == "common" {
-			p.Func("TimeOfRound").WriteTo(os.Stdout)
+	sort.Strings(order)
+
+	known := loadKnown(filepath.Join(verif, "known_findings.txt"))
+	isKnown := func(name string) *knownFinding {
+		for i := range known {
+			if !known[i].Fixed && known[i].Prop == prop && known[i].Oblig == name {
+				return &known[i]
+			}
+		}
+		return nil
+	}
+
+	exit := 0
+	violations := 0
+	var knownHit []string
+	undecided := []string{}
+	eng.mu.Lock()
+	for e := range eng.cerrs {
+		undecided = append(undecided, "contract error: "+e)
+	}
+	eng.mu.Unlock()
+	for _, r := range results {
+		if r.Missing {
+			undecided = append(undecided, "function under contract not found: "+r.Key)
+		}
+		if r.Truncated {
+			undecided = append(undecided, "path limit exceeded in "+r.Short)
+		}
+		for _, e := range r.Errors {
+			undecided = append(undecided, e)
 		}
 	}
+	sort.Strings(undecided)
+	replayDir := filepath.Join(verif, "out", "replay")
+	os.MkdirAll(replayDir, 0o755)
+	discharged := 0
+	total := 0
+	for _, n := range order {
+		a := aggs[n]
+		total++
+		if len(a.Failed) == 0 {
+			discharged++
+			continue
+		}
+		if kf := isKnown(n); kf != nil {
+			fmt.Printf("KNOWN-FINDING: property=%s %s: %s\n", prop, n, kf.Note)
+			knownHit = append(knownHit, n)
+			continue
+		}
+		violations++
+		exit = 1
+		f := a.Failed[0]
+		rp := filepath.Join(replayDir, prop+"-"+sanitizeFile(n)+".json")
+		replay := map[string]any{
+			"property": prop, "obligation": n, "kind": a.Kind, "clause": a.Src, "where": a.Where, "path": f.Trail,
+			"solver": f.Res.Solver, "status": f.Res.Status, "solver_output": trunc2(f.Res.Out, 6000), "smt_file": f.File,
+			"failed_instances": len(a.Failed), "instances": a.Instances,
+		}
+		suffix := ""
+		reproduced := tryReplay(eng, prop, a, f, replay)
+		if !reproduced {
+			suffix = " no-failing-input-found"
+		}
+		b, _ := json.MarshalIndent(replay, "", " ")
+		os.WriteFile(rp, b, 0o644)
+		fmt.Printf("VIOLATION property=%s replay=%s obligation=%s (%s) at %s status=%s%s\n", prop, rp, n, trunc(a.Src, 100), a.Where, f.Res.Status, suffix)
+	}
+	// anchors that vanished inside existing functions are failed obligations (the proof no longer goes through)
+	for _, u := range undecided {
+		if strings.Contains(u, "did not attach") {
+			violations++
+			exit = 1
+			rp := filepath.Join(replayDir, prop+"-anchor-"+scriptHash(u)+".json")
+			b, _ := json.MarshalIndent(map[string]any{"property": prop, "obligation": "anchor", "reason": u}, "", " ")
+			os.WriteFile(rp, b, 0o644)
+			fmt.Printf("VIOLATION property=%s replay=%s obligation-cannot-be-generated: %s no-failing-input-found\n", prop, rp, u)
+		}
+	}
+	if exit == 0 && len(undecided) > 0 {
+		for _, u := range undecided {
+			fmt.Printf("UNDECIDED property=%s reason=%s\n", prop, u)
+		}
+		exit = 3
+	}
+	if total == 0 {
+		fmt.Printf("UNDECIDED property=%s reason=no obligations generated\n", prop)
+		exit = 3
+	}
+	bounded := runBounded(verif, prop)
+	for _, b := range bounded {
+		if !b.OK {
+			fmt.Printf("UNDECIDED property=%s reason=bounded check of an assumed contract failed: %s: %s\n", prop, b.Name, trunc(b.Out, 200))
+			if exit == 0 {
+				exit = 3
+			}
+		}
+	}
+	wall := time.Since(t0).Seconds()
+	fmt.Printf("property=%s tier=%s functions=%d obligations=%d discharged=%d known=%d violations=%d load=%.1fs gen=%.1fs solver_cpu=%.1fs wall=%.1fs\n",
+		prop, tier, len(results), total, discharged, len(knownHit), violations, loadS, genS, float64(solverMs)/1000, wall)
+	if verbose {
+		for _, n := range order {
+			a := aggs[n]
+			st := "ok"
+			if len(a.Failed) > 0 {
+				st = "FAIL(" + a.Failed[0].Res.Status + ")"
+			}
+			fmt.Printf("  %-8s %-70s x%d %v %dms  %s\n", st, n, a.Instances, a.Solvers, a.Ms, trunc(a.Src, 80))
+		}
+		for _, r := range results {
+			var ns []string
+			for k, c := range r.Notes {
+				ns = append(ns, fmt.Sprintf("%s x%d", k, c))
+			}
+			sort.Strings(ns)
+			fmt.Printf("  func %s paths=%d obligs=%d %dms notes=%v\n", r.Short, r.Paths, len(r.Obligs), r.WallMs, ns)
+		}
+	}
+	if writeEvidence {
+		writeEvidenceFile(eng, verif, prop, tier, seed, results, aggs, order, total, discharged, violations, knownHit, undecided, solverMs, wall, bounded)
+	}
+	return exit
+}
+
+func trunc2(s string, n int) string {
+	if len(s) > n {
+		return s[:n] + "...(truncated)"
+	}
+	return s
+}
+
+func writeEvidenceFile(eng *Engine, verif, prop, tier string, seed int, results []*FuncResult, aggs map[string]*obAgg, order []string, total, discharged, violations int, knownHit, undecided []string, solverMs int64, wall float64, bounded []boundedRes) {
+	type fnEv struct {
+		Name        string         `json:"name"`
+		Obligations int            `json:"obligations"`
+		Instances   int            `json:"path_instances"`
+		Paths       int            `json:"paths"`
+		Solvers     map[string]int `json:"discharged_by"`
+		SolverMs    int64          `json:"solver_ms"`
+		Abstracted  []string       `json:"abstracted,omitempty"`
+	}
+	var fns []fnEv
+	dropped := map[string]int{}
+	for _, r := range results {
+		fe := fnEv{Name: r.Short, Paths: r.Paths, Solvers: map[string]int{}}
+		names := map[string]bool{}
+		for _, o := range r.Obligs {
+			names[o.Name()] = true
+			fe.Instances++
+			fe.Solvers[o.Res.Solver]++
+			fe.SolverMs += o.Res.Ms
+		}
+		fe.Obligations = len(names)
+		for k, c := range r.Notes {
+			fe.Abstracted = append(fe.Abstracted, k)
+			dropped[k] += c
+		}
+		sort.Strings(fe.Abstracted)
+		fns = append(fns, fe)
+	}
+	var samples []any
+	for _, n := range order {
+		a := aggs[n]
+		if len(samples) < 6 && a.Kind != "vacuity" && a.Kind != "canary" {
+			samples = append(samples, map[string]any{"obligation": n, "clause": a.Src, "where": a.Where, "path_instances": a.Instances, "discharged_by": a.Solvers})
+		}
+	}
+	var obl []any
+	for _, n := range order {
+		a := aggs[n]
+		st := "discharged"
+		if len(a.Failed) > 0 {
+			st = "failed:" + a.Failed[0].Res.Status
+		}
+		if a.Expect {
+			if len(a.Failed) > 0 {
+				st = "vacuity-check-failed"
+			} else {
+				st = "vacuity-check-passed(sat-as-required)"
+			}
+		}
+		obl = append(obl, map[string]any{"name": n, "kind": a.Kind, "status": st, "instances": a.Instances, "ms": a.Ms})
+	}
+	used := map[string]bool{}
+	eng.mu.Lock()
+	for k := range eng.usedContracts {
+		used[k] = true
+	}
+	eng.mu.Unlock()
+	tb := eng.trustedBase(prop, used)
+	tb = append(tb,
+		"go/packages + go/types + go/ssa (x/tools v0.50.0) and govc's SSA-to-SMT translation",
+		"SMT solvers z3 5.1.0, cvc5 1.0.x, z3 4.8.12 (an obligation counts as discharged when any one answers unsat)",
+		"callees on the pure list (logging, tracing, metrics, fmt, context, time accessors) do not modify modelled state",
+	)
+	var drops []string
+	for k, c := range dropped {
+		drops = append(drops, fmt.Sprintf("%s (x%d)", k, c))
+	}
+	sort.Strings(drops)
+	assumptions := []string{
+		"integers: SMT Int with exact Go wrap-around semantics per operation (not idealised)",
+		"float64: real arithmetic with IEEE-754 relative error 2^-53 per operation, exact on representable integers |x|<=2^53; no NaN/Inf",
+		"[]byte and string contents are abstract immutable values (length, equality, concatenation only)",
+		"goroutine interleavings are not modelled: each function is verified sequentially; `go` statements generate no obligation at the site",
+		"termination is not verified",
+		"heap model: one SMT array per struct field (Burstall-Bornat); unsafe/reflect not modelled",
+	}
+	cov := map[string]any{
+		"obligations": total, "discharged": discharged,
+		"checker_cmd":  fmt.Sprintf("/verif/bin/govc check %s -tier %s", prop, tier),
+		"trusted_base": tb, "functions_under_contract": fns, "solver_time_s": float64(solverMs) / 1000,
+		"samples": samples, "obligation_list": obl, "dropped_by_translation": drops,
+		"known_findings": knownHit, "undecided": undecided,
+		"contract_sources": eng.cs.Sources,
+		"back_ends":        []string{"z3-5.1.0 (z3-new)", "cvc5-1.0", "z3-4.8.12"},
+		"bounded":          bounded,
+	}
+	ev := map[string]any{
+		"property_id": prop, "tier": tier, "seed": seed, "level": "proof",
+		"coverage": cov, "assumptions": assumptions, "wall_s": wall, "violations": violations,
+	}
+	b, _ := json.MarshalIndent(ev, "", " ")
+	os.MkdirAll(filepath.Join(verif, "evidence"), 0o755)
+	os.WriteFile(filepath.Join(verif, "evidence", prop+".json"), b, 0o644)
+}
+
+type boundedRes struct {
+	Name  string `json:"name"`
+	Bound string `json:"bound"`
+	OK    bool   `json:"passed"`
+	Out   string `json:"output"`
+}
+
+// runBounded runs the bounded stand-ins registered for a property (never counted as discharged).
+func runBounded(verif, prop string) []boundedRes {
+	out := []boundedRes{}
+	b, err := os.ReadFile(filepath.Join(verif, "bounded", "index.json"))
+	if err != nil {
+		return out
+	}
+	var idx map[string][]struct{ Name, Bin, Bound string }
+	if json.Unmarshal(b, &idx) != nil {
+		return out
+	}
+	for _, e := range idx[prop] {
+		cmd := exec.Command(filepath.Join(verif, e.Bin))
+		o, err := cmd.CombinedOutput()
+		out = append(out, boundedRes{Name: e.Name, Bound: e.Bound, OK: err == nil, Out: strings.TrimSpace(string(o))})
+	}
+	return out
 }
